@@ -636,6 +636,71 @@ def r8_no_shared_mutable_state(ctx, rule='C13.R8'):
     ctx.count('module_level_containers_in_backends', n)
 
 
+def r3b_local_prefix_scan(ctx):
+    """Local.list_files(prefix) is a plain string-prefix filter over the names below the prefix's directory, like the
+    object stores': every listing scans that directory and filters its entries by `startswith`.  A path that finishes the
+    listing without the scan (a shortcut for "the prefix names a directory") drops the siblings that merely start with
+    the same characters (data/ab -> data/abc, data/abd)."""
+    corpus = ctx.corpus
+    local = corpus.cls('local', 'Local')
+    lf = local.methods.get('list_files')
+    if lf is None:
+        raise AnalysisError('C13.R3: Local.list_files missing')
+    cands = [lf] + list(lf.all_nested()) + [m for m in local.methods.values() if m is not lf and any(isinstance(a, ast.Attribute) and a.attr == m.name for a in ast.walk(lf.node))]
+    scanners = [f for f in cands if any((dotted(c.func) or '') == 'os.scandir' for c in calls_in(f.node))]
+    ctx.floor('C13.R3', 'function of Local that opens the listing directory', len(scanners))
+    for f in scanners:
+        ctx.analysed(f)
+        cfg = cfg_of(f.node)
+        scans = [x for c in calls_in(f.node) if (dotted(c.func) or '') == 'os.scandir' for x in cfg.nodes_of(enclosing_stmt(c), ('stmt', 'with_enter'))]
+        bypass = cfg.path(cfg.entry, [cfg.exit], avoid=scans, kinds=('normal',))
+        ctx.check(
+            bypass is None,
+            'C13.R3',
+            f'{func_label(f)}|every-listing-scans-the-prefix-directory',
+            loc(f, f.node),
+            f'{f.qual}: every listing opens the directory of the prefix and filters its entries (no path to the end of the listing avoids the scan)',
+            f'{f.qual}: the listing can finish without scanning the directory of the prefix (path {" -> ".join(f"{n.kind}@{n.lineno}" for n in (bypass or []) if n.lineno)[:160]}): entries whose names merely start with the prefix are not reported - '
+            'the adapter answers differently from S3 / B2 for the same store contents',
+        )
+        filt = [c for c in calls_in(f.node) if isinstance(c.func, ast.Attribute) and c.func.attr == 'startswith']
+        ctx.check(bool(filt), 'C13.R3', f'{func_label(f)}|entries-filtered-by-startswith', loc(f, f.node), f'{f.qual}: entries are filtered with startswith(<basename of the prefix>)', f'{f.qual}: no startswith filter on the scanned entries')
+
+
+def r9_b2_bucket_record(ctx):
+    """B2 addresses objects by bucket *name* in download URLs and by bucket *id* in the JSON API.  The cached bucket
+    record must therefore carry the API's own bucketId / bucketName - never the connection-string identifier, which
+    may be either of the two."""
+    corpus = ctx.corpus
+    b2 = corpus.cls('b2', 'B2')
+    n = 0
+    for m in b2.methods.values():
+        for a in walk_local(m.node):
+            if not (isinstance(a, ast.Assign) and any(isinstance(t, ast.Attribute) and t.attr == '_bucket' and isinstance(t.value, ast.Name) and t.value.id == 'self' for t in a.targets)):
+                continue
+            v = a.value
+            if not (isinstance(v, ast.Call) and {k.arg for k in v.keywords} >= {'id', 'name'}):
+                continue
+            n += 1
+            ctx.analysed(m)
+
+            def field(e, key):
+                d = deref_at(m.node, e) if isinstance(e, ast.Name) else e
+                return isinstance(d, ast.Subscript) and isinstance(d.slice, ast.Constant) and d.slice.value == key
+
+            kid, knm = kwarg(v, 'id'), kwarg(v, 'name')
+            ctx.check(
+                field(kid, 'bucketId') and field(knm, 'bucketName'),
+                'C13.R9',
+                f'{func_label(m)}|bucket-record-from-api-fields',
+                loc(m, a),
+                f"B2.{m.name}: the cached bucket record is (id=<..>['bucketId'], name=<..>['bucketName']) as reported by the service",
+                f"B2.{m.name}: the cached bucket record is built from `id={src(kid, 40)}`, `name={src(knm, 40)}` - not the service's bucketId / bucketName: when the repository is addressed by bucket id, "
+                'download URLs (/file/<name>/..) point to a non-existing bucket: exists() says False for live objects and downloads fail, while uploads and listings (by id) work',
+            )
+    ctx.floor('C13.R9', 'B2 bucket record constructions', n, 2)
+
+
 def run(ctx):
     from ..report import Relabel
     from .c03 import r4_local_atomic
@@ -645,10 +710,15 @@ def run(ctx):
     r4_local_atomic(Relabel(ctx, 'C13.R6'))
     r2_rewind(Relabel(ctx, 'C13.R6'), rule='C13.R6')
     r8_no_shared_mutable_state(ctx)
+    r9_b2_bucket_record(ctx)
     r7_exists_answer(ctx)
     r6_temp_invisible(ctx)
     r1_conformance(ctx)
     r2_pagination(ctx)
+    from .shared import local_listing_errors_propagate
+
+    local_listing_errors_propagate(ctx, 'C13.R2')
     r3_prefix(ctx)
+    r3b_local_prefix_scan(ctx)
     r4_idempotent_delete(ctx)
     r5_quoting(ctx)
